@@ -95,18 +95,21 @@ package keeper
 //@   ensures pos.idx[validator.Address] == upd(old(pos.idx[validator.Address]), val(validator.StakedTokens) / 1000000, false)
 // the unstaking queue slot of time t is stored as an amino list of addresses; pos.queue[t] is the SET of its elements
 // (order and multiplicity are not modelled): get returns a list with exactly that element set, set stores one
-//@ assumed func (k Keeper) getUnstakingValidators(ctx sdk.Ctx, unstakingTime time.Time) (valAddrs []sdk.Address)
+//@ func (k Keeper) getUnstakingValidators(ctx sdk.Ctx, unstakingTime time.Time) (valAddrs []sdk.Address)
 //@   mode value
+//@   props C06
 //@   ensures fresh(valAddrs) && (forall j int :: 0 <= j && j < len(valAddrs) ==> valAddrs[j] != nil)
 //@   ensures forall j int :: 0 <= j && j < len(valAddrs) ==> pos.queue[unstakingTime][valAddrs[j]]
 //@   ensures forall a Bytes :: pos.queue[unstakingTime][a] ==> (exists j int :: 0 <= j && j < len(valAddrs) && valAddrs[j] == a)
-//@ assumed func (k Keeper) setUnstakingValidators(ctx sdk.Ctx, unstakingTime time.Time, keys []sdk.Address)
+//@ func (k Keeper) setUnstakingValidators(ctx sdk.Ctx, unstakingTime time.Time, keys []sdk.Address)
 //@   mode value
+//@   props C06
 //@   modifies pos.queue[unstakingTime]
 //@   ensures forall j int :: 0 <= j && j < len(keys) ==> pos.queue[unstakingTime][keys[j]]
 //@   ensures forall a Bytes :: pos.queue[unstakingTime][a] ==> (exists j int :: 0 <= j && j < len(keys) && keys[j] == a)
-//@ assumed func (k Keeper) deleteUnstakingValidators(ctx sdk.Ctx, unstakingTime time.Time)
+//@ func (k Keeper) deleteUnstakingValidators(ctx sdk.Ctx, unstakingTime time.Time)
 //@   mode value
+//@   props C06
 //@   modifies pos.queue[unstakingTime]
 //@   ensures forall a Bytes :: !pos.queue[unstakingTime][a]
 // C06: queueing appends the address to the slot of its completion time; un-queueing filters it out (and drops an empty slot)
